@@ -344,7 +344,35 @@ func run(mk repoMaker, c Case) engine.Outcome {
 					for j, s := range op.Batch {
 						batch[j] = s.snapshot()
 					}
-					if err := repo.Append(nm, helper.SliceToChan(batch)); err != nil {
+					var src <-chan *asset.Snapshot
+					switch (i + len(batch)) % 3 {
+					case 0:
+						src = helper.SliceToChan(batch)
+					case 1:
+						// a buffered channel that already holds the whole batch and is closed
+						ch := make(chan *asset.Snapshot, len(batch)+1)
+						for _, sn := range batch {
+							ch <- sn
+						}
+						close(ch)
+						src = ch
+						o.Add("appends_from_a_prefilled_buffered_channel", 1)
+					default:
+						// a buffered channel that is half full when Append starts
+						ch := make(chan *asset.Snapshot, 2)
+						k := 0
+						for ; k < len(batch) && k < 2; k++ {
+							ch <- batch[k]
+						}
+						go func(rest []*asset.Snapshot) {
+							for _, sn := range rest {
+								ch <- sn
+							}
+							close(ch)
+						}(batch[k:])
+						src = ch
+					}
+					if err := repo.Append(nm, src); err != nil {
 						o.Failf("%s step %d: Append(%q, %d snapshots) failed: %v", mk.name, i, nm, len(batch), err)
 						return o
 					}
